@@ -28,14 +28,14 @@ type c12Params struct {
 	OrphanTable bool   `json:"orphan_table"`
 }
 
-func c12RefName(rng *rand.Rand, j int) string {
+func c12RefName(rng *rand.Rand, j int, txid string) string {
 	switch rng.Intn(5) {
 	case 0:
 		return fmt.Sprintf("tags/v%d", j)
 	case 1:
 		return fmt.Sprintf("remotes/origin/b%d", j)
 	case 2:
-		return fmt.Sprintf("txs/%s/b%d", uuid.MustParse("a1dbfcc4-f6da-454c-a783-f1b70d347baf"), j)
+		return fmt.Sprintf("txs/%s/b%d", txid, j)
 	default:
 		return fmt.Sprintf("heads/b%d", j)
 	}
@@ -96,7 +96,7 @@ func c12Run(c *fw.Case, env *fw.Env) *fw.Obs {
 	if !open() {
 		return o
 	}
-	h, err := buildHistory(db, rng, histOpts{N: p.N, BaseRows: p.BaseRows, Roots: 2})
+	h, err := buildHistory(db, rng, histOpts{N: p.N, BaseRows: p.BaseRows, Roots: 2, Rekey: true})
 	if err != nil {
 		closeAll()
 		o.Status = "inconclusive"
@@ -106,9 +106,14 @@ func c12Run(c *fw.Case, env *fw.Env) *fw.Obs {
 	// refs of every kind onto a random subset of commits (the rest is "deleted refs")
 	refKinds := map[string]bool{}
 	R := map[int]bool{}
+	// transaction refs belong to a transaction that is open (started now, nowhere near any expiry)
+	txid := uuid.MustParse("a1dbfcc4-f6da-454c-a783-f1b70d347baf").String()
+	if id, err := rs.NewTransaction(nil); err == nil && id != nil {
+		txid = id.String()
+	}
 	for j := 0; j < p.Refs; j++ {
 		i := rng.Intn(p.N)
-		name := c12RefName(rng, j)
+		name := c12RefName(rng, j, txid)
 		rs.Set(name, h.sums[i])
 		refKinds[name[:strings.IndexByte(name, '/')]] = true
 		for a := range h.anc[i] {
@@ -342,6 +347,10 @@ func init() {
 					p.Via = "cli-gc"
 				}
 				l.Add("repo", p, 0)
+			}
+			// gc = transaction clean-up + prune: repositories with an open transaction holding refs
+			for i := 0; i < l.N(8, 300); i++ {
+				l.Add("gc", c12Params{N: 3 + rng.Intn(8), BaseRows: 4, Refs: 6 + rng.Intn(6), Via: "cli-gc"}, 0)
 			}
 			return l.Cases
 		},
